@@ -464,6 +464,9 @@ func (p *Program) callMods0(c *ssa.CallCommon, out map[string]string) {
 	for _, f := range cs {
 		if ct := p.Contracts[fnName(f)]; ct != nil && !ct.HasFrame() {
 			for _, g := range ct.Havocs {
+				if g == "clock" {
+					out["GH.clock"] = STime
+				}
 				if gv := p.Ghosts[g]; gv != nil {
 					out["GH.u."+g] = gv.Sort
 				}
